@@ -57,11 +57,11 @@ Definition silent_ok (tr : script -> list erec) (sc : script) (m : N) : Prop :=
   others m (items (events_of (tr sc))) = others m (items (events_of (tr (quieten m sc)))).
 
 Definition w_m1 : modcfg := {| c_catch := false; c_stages := 1; c_bud := 6; c_start := [[]];
-  c_msg := [[ALog 2]]; c_tasks := []; c_end := []; c_join := 0 |}.
+  c_msg := [[ALog 2]]; c_tasks := []; c_end := []; c_join := 0; c_rsend := false |}.
 
 (* (a) corpus/C13/multistage_panic.txt, line 1 *)
 Definition w_m0 : modcfg := {| c_catch := false; c_stages := 2; c_bud := 6; c_start := [[APanic]; []];
-  c_msg := [[ALog 1]]; c_tasks := [[ARestartIn 1; ASend false 3 0]]; c_end := []; c_join := 0 |}.
+  c_msg := [[ALog 1]]; c_tasks := [[ARestartIn 1; ASend false 3 0]]; c_end := []; c_join := 0; c_rsend := false |}.
 Definition w_sc : script := {| s_mods := [w_m0; w_m1]; s_inj := [] |}.
 
 Lemma C13_pinned_sweep_refuted : exists sc m, c_catch (cfg sc m) = false /\ ~ silent_ok (trace_p false false) sc m.
@@ -71,7 +71,7 @@ Proof. exists w_sc, 0. split; [reflexivity|]. unfold silent_ok. vm_compute. disc
    asks for a restart, the restart's at_sim_start(0) panics (caught), at_sim_start(1) of the same restart polls the
    task spawned before the panic, which asks for another restart and sends: module 1 handles a message at t = 13 *)
 Definition c_m0 : modcfg := {| c_catch := true; c_stages := 2; c_bud := 9; c_start := [[ARestartIn 2]; [APanic]; []];
-  c_msg := [[ALog 1]]; c_tasks := [[ARestartIn 3; ASend false 4 0]]; c_end := []; c_join := 0 |}.
+  c_msg := [[ALog 1]]; c_tasks := [[ARestartIn 3; ASend false 4 0]]; c_end := []; c_join := 0; c_rsend := false |}.
 Definition c_sc : script := {| s_mods := [c_m0; w_m1]; s_inj := [] |}.
 
 Lemma C13_pinned_restart_refuted : exists sc m, ~ silent_ok (trace_p true false) sc m.
@@ -100,7 +100,7 @@ Definition handle_message_snap (k : N) (c : modcfg) (now m x : N) (s : xs) : xs 
   else s.
 
 Definition s_m0 : modcfg := {| c_catch := false; c_stages := 1; c_bud := 3; c_start := [[]];
-  c_msg := [[ASetCatch true; APanic]]; c_tasks := []; c_end := []; c_join := 0 |}.
+  c_msg := [[ASetCatch true; APanic]]; c_tasks := []; c_end := []; c_join := 0; c_rsend := false |}.
 Definition s_sc : script := {| s_mods := [s_m0; w_m1]; s_inj := [] |}.
 Definition s_st : xs := {| x_w := init_world s_sc; x_log := [] |}.
 
